@@ -52,7 +52,7 @@ TYPE_ERRORS = ["is invalid. (valid ops are", "cannot compare", "cannot negate", 
                "does not have", "already borrowed", "requires a", "expected "]
 ALLOWED = ["<Nil ", " Nil>", "An explicit assertion failed", "unwrap of `nil`", "nil object", "out of bounds", "/ by 0", "% by 0", "with overflow", "overflow/underflow", "cannot be made into",
            "overflowed its stack", "could not fit", "is an invalid radix", "is an invalid power", "could not be used to index", "removal index", "cannot delete", "does not fit in a bigint",
-           "byte index", "is not a char boundary", "range end index", "range start index", "slice index", "to the power of"]
+           "byte index", "is out of range for a string", "is not a char boundary", "range end index", "range start index", "slice index", "to the power of"]
 
 
 def kind_of_type_text(t):
@@ -146,6 +146,15 @@ def cell_programs():
         out.append(("call|%s" % t, PRE + decl(t, "a", 0) + "\nprint \"@run\"\n" + probe("a()")))
         out.append(("cond|%s" % t, PRE + decl(t, "a", 0) + "\nprint \"@run\"\nif a {\n\tprint \"then\"\n}\n"))
         out.append(("loop-bound|%s" % t, PRE + decl(t, "a", 0) + "\nprint \"@run\"\nfrom 0 to a {\n}\nfrom 0 to 4 step a {\n\tbreak\n}\n"))
+    # from-loop counters: the counter's static type against the kind it holds in EVERY iteration (first one included)
+    NUMS = {"int": ("1", "4", "1"), "bigint": ("B1", "B4", "B1"), "float": ("1.5", "4.5", "0.5"), "byte": ("0b1", "0b100", "0b1")}
+    for sk, (lo, hi, _) in NUMS.items():
+        for tk in [None] + list(NUMS):
+            for form in ("to", "through"):
+                head = "from a %s e%s, i {" % (form, "" if tk is None else " step st")
+                src = PRE + "a: %s = %s\ne: %s = %s\n" % (sk, lo, sk, hi) + ("" if tk is None else "st: %s = %s\n" % (tk, NUMS[tk][2])) + \
+                    "print \"@run\"\n" + head + "\n" + "".join("\t" + l + "\n" for l in probe("i").strip().split("\n")) + "}\n"
+                out.append(("loop-counter|%s|%s|%s" % (sk, tk or "nostep", form), src))
     return out
 
 
@@ -189,6 +198,10 @@ def catalogue():
     c.append(("cat|wide-int-literal", "x = 2147483648\nprint \"@run\"\n" + probe("x") + probe("x + 1")))
     c.append(("cat|wide-int-literal-annotated", "x: int = 2147483648\nprint \"@run\"\n" + probe("x")))
     c.append(("cat|neg-wide-literal", "x = -2147483648\nprint \"@run\"\n" + probe("x")))
+    c.append(("cat|modify-own-variable-from-block", "a = 3\nprint \"@run\"\nif true {\n\tmodify a = 7\n}\n" + probe("a")))
+    c.append(("cat|modify-function-local-from-block", "f = fn() -> int {\n\ta = 3\n\tif true {\n\t\tmodify a = 7\n\t}\n\treturn a\n}\nprint \"@run\"\n" + probe("f()")))
+    c.append(("cat|modify-local-shadow-of-captured", "a = 5\nf = fn() -> int {\n\ta = 3\n\tfrom 0 to 2 {\n\t\tmodify a = 7\n\t}\n\treturn a\n}\nprint \"@run\"\n" + probe("f()") + probe("a")))
+    c.append(("cat|modify-closure-local-from-block", "mk = fn() -> fn() -> int {\n\tc = 0\n\treturn fn() -> int {\n\t\tl = c\n\t\twhile l < 2 {\n\t\t\tmodify l = l + 1\n\t\t}\n\t\treturn l\n\t}\n}\ng = mk()\nprint \"@run\"\n" + probe("g()")))
     c.append(("cat|if-without-else-returns", "f = fn(a: int) -> int {\n\tif a > 0 {\n\t\treturn 1\n\t}\n}\nprint \"@run\"\n" + probe("f(0)")))
     c.append(("cat|else-if-without-else-returns", "f = fn(a: int) -> int {\n\tif a > 0 {\n\t\treturn 1\n\t} else if a < 0 {\n\t\treturn 2\n\t}\n}\nprint \"@run\"\n" + probe("f(0)")))
     c.append(("cat|loop-only-return", "f = fn(a: int) -> int {\n\tfrom 0 to a {\n\t\treturn 1\n\t}\n}\nprint \"@run\"\n" + probe("f(0)")))
